@@ -155,7 +155,11 @@ def run(ctx):
             m = d.call('gr_construct', str(eidx[p]), '(' + ' '.join(str(aidx[a]) for a in given) + ')', '1')
             ctx.corr('constructor of %s:%s %s' % (p + (label,)), None, m, r)
             w = 'Accepted' if all(a in given for a in req) else 'AttributeError'
-            if r != w and p not in unknown:
+            if label == 'all-required-by-either' and r != 'Accepted' and p not in unknown and len(given) == len(set(req) | set(greq)):
+                # everything the schema or the table asks for is there: whatever the two disagree about (the recorded deviations),
+                # a refusal here is a refusal of a complete element
+                ctx.violation('constructor-refuses-complete-element', {'element': p, 'given': given, 'case': label}, r, 'Accepted', {})
+            elif r != w and p not in unknown:
                 for a in sorted(set(req) ^ set(greq)):
                     if (a in given) != (w == 'Accepted') or True:
                         dev('REQ', p, a, '%s with %s' % (r, label), w, {'element': p, 'given': given});
